@@ -407,3 +407,30 @@ BENIGN += [
         (M, '        sink.flush()\n            .expect("Cannot write to output");\n', ''),
         (M, 'impl Write for NamedSink {', 'impl Drop for NamedSink {\n    fn drop(&mut self) {\n        self.sink.flush().expect("Cannot write to output");\n    }\n}\nimpl Write for NamedSink {')]),
 ]
+
+# ---------------------------------------------------------------- round 6: the semantic renderer / rendering / action-value rules
+G = "src/fml.lalrpop"
+MUTANTS += [
+    dict(id="M15f", props=["C15"], what="object fields sorted by name descending", edits=[
+        (H, "        sorted_fields.sort_by_key(|(name, _)| *name);", "        sorted_fields.sort_by(|(a, _), (b, _)| b.cmp(a));")]),
+    dict(id="M15g", props=["C15"], what="object without parent joins its fields with ',' (no space)", edits=[
+        (H, '            None => Ok(format!("object({})", fields.join(", "))),', '            None => Ok(format!("object({})", fields.join(","))),')]),
+    dict(id="M17f", props=["C17"], what="instructions are numbered from 1 in the listing", edits=[
+        (P, '            writeln!(f, "{}: {}", i, opcode)?;', '            writeln!(f, "{}: {}", i + 1, opcode)?;')]),
+    dict(id="M7j", props=["C07"], what="if-then-else action hands the branches to the constructor in swapped order", edits=[
+        (G, "AST::conditional(condition, consequent, alternative)", "AST::conditional(condition, alternative, consequent)")]),
+    dict(id="M7k", props=["C07"], what="Expressions puts the first statement last", edits=[
+        (G, "        let mut all = VecDeque::from(elements);\n        all.push_front(element);\n        Vec::from(all)\n    }\n}\n\nExpression<openness>",
+            "        let mut all = VecDeque::from(elements);\n        all.push_back(element);\n        Vec::from(all)\n    }\n}\n\nExpression<openness>")]),
+]
+BENIGN += [
+    dict(id="B29", props=["C15", "C05", "C01"], what="object fields sorted with an explicit ascending name comparator", edits=[
+        (H, "        sorted_fields.sort_by_key(|(name, _)| *name);", "        sorted_fields.sort_unstable_by(|(a, _), (b, _)| a.cmp(b));")]),
+    dict(id="B30", props=["C17"], what="fixed mnemonic written with write_str", edits=[
+        (B, '                write!(f, "array"),', '                f.write_str("array"),')]),
+    dict(id="B31", props=["C07", "C01", "C12", "C02"], what="block action builds its list with push + extend", edits=[
+        (G, "        let mut all = VecDeque::from(elements);\n        all.push_front(element);\n        Vec::from(all)\n    }\n}\n\nExpression<openness>",
+            "        let mut all = Vec::with_capacity(elements.len() + 1);\n        all.push(element);\n        all.extend(elements);\n        all\n    }\n}\n\nExpression<openness>")]),
+    dict(id="B32", props=["C07", "C01", "C13", "C14"], what="index assignment action calls the constructor helper", edits=[
+        (G, "        AST::AssignArray{array: Box::new(array), index: Box::new(index), value: Box::new(v)},", "        AST::assign_array(array, index, v),")]),
+]
